@@ -32,8 +32,11 @@ RULE = ("cases: C11's programs (random scripts over acquire/release/sleep/wait w
 
 KINDS = {
     "handover-order": "the future that is set belongs to the (effective priority, arrival)-minimal queued waiter",
+    "handover-order-after-giveup": "the future that is set belongs to the (effective priority, arrival)-minimal "
+                                   "queued waiter, also after an earlier waiter was cancelled or interrupted",
 }
-THEOREM = {"handover-order": "Asynkit.C12.handover_most_urgent / waiter_key_inv"}
+THEOREM = {"handover-order": "Asynkit.C12.handover_most_urgent / waiter_key_inv_partial",
+           "handover-order-after-giveup": "Asynkit.C12.handover_most_urgent / waiter_key_inv_partial"}
 NONTRIVIAL = {"handover-contended", "handover-decided-by-inherited-priority", "handover-tie",
               "handover-by-giveup", "rekeyed-while-queued"}
 
@@ -54,7 +57,7 @@ def gen(rng, n):
 def run(ctx):
     rng = ctx.rng
     S.explore(ctx, S.corpus_cases(PROP), KINDS, THEOREM, label="corpus: ", nontrivial=NONTRIVIAL)
-    cases = gen(rng, 3000 if ctx.thorough() else 500)
+    cases = gen(rng, 30000 if ctx.thorough() else 2500)
     runs = S.explore(ctx, cases, KINDS, THEOREM, nontrivial=NONTRIVIAL)
     for c in cases[:2]:
         ctx.sample(c)
